@@ -86,7 +86,15 @@ func runC15(c *core.Ctx) *core.Outcome {
 	}
 	t.End()
 	a := &app.App{Root: "root", Labels: map[string]map[string]string{}}
-	a.Ext = []*app.ExtSym{{Name: sa, Size: size, Script: []app.ExtBehav{{Len: 4}}}}
+	// in a third of the runs the external function fails on its first call: the session visits the
+	// catch node once before it gets to the damaged part of the record
+	priorFail := t.Chance(1, 3)
+	script := []app.ExtBehav{{Len: 4}}
+	if priorFail {
+		script = []app.ExtBehav{{Err: true, Len: -1}, {Len: 4}, {Len: 4}, {Len: 4}}
+		o.Probes["external_failure_before_the_damage"]++
+	}
+	a.Ext = []*app.ExtSym{{Name: sa, Size: size, Script: script}}
 	a.Nodes = append(a.Nodes, &app.Node{Name: "root", Code: code, Tpl: map[string]string{"": "@root| " + sa + "=[{{." + sa + "}}]$"}})
 	for _, n := range []string{"nb", "nc"} {
 		a.Nodes = append(a.Nodes, &app.Node{Name: n, Code: []app.Inst{{Op: app.HALT}, {Op: app.INCMP, A: "_", B: "*"}}, Tpl: map[string]string{"": "@" + n + "|$"}})
@@ -145,9 +153,22 @@ func runC15(c *core.Ctx) *core.Outcome {
 		okRequests := 0
 		var lastErr string
 		moved := false
-		for ri, in := range [][]byte{nil, []byte("1")} {
+		reqs := [][]byte{nil, []byte("1")}
+		if priorFail {
+			reqs = [][]byte{nil, []byte("0"), []byte("1")} // catch node, back to the root record, on
+		}
+		for ri, in := range reqs {
 			st := s.Request(in, false)
 			o.Counts["requests"]++
+			if st.Panic == "" && st.ExecErr == "" && derr != nil && !hasNoop {
+				// whatever else happens, a decoding failure must not come back as a successful request
+				// whose page merely quotes it: the only error texts a page of this application may carry
+				// are the failed external call and the unmatched input
+				if pfx := app.ParsePage(st.Out).Prefix; pfx != "" && !strings.HasPrefix(pfx, "error "+sa+":") && !strings.HasPrefix(pfx, "invalid input: ") {
+					addV("vm-decode-error-shown-as-page", map[string]string{"why": derr.Why}, "the record damaged by %s is malformed at instruction %d (%s); request %d reports success and its page carries the error text %q (record %x)", desc, derr.Inst, derr.Why, ri, pfx, b)
+					return
+				}
+			}
 			if st.Panic != "" {
 				if decodingSite(st.PanicAt) {
 					addV("panic:"+st.PanicAt, map[string]string{"reader": "vm", "site": st.PanicAt}, "executing the record damaged by %s panicked in %s on request %d: %s (record %x)", desc, st.PanicAt, ri, st.Panic, b)
